@@ -3,6 +3,8 @@ ENGINES = [
      'kind_free_text': 'rustc_private driver dumping type-checked MIR (resolved callees, field names, evaluated constants, statics, promoted bodies) as JSON; injected with RUSTC_WORKSPACE_WRAPPER under cargo +nightly check on the current working tree'},
     {'name': 'E1 call graph + effects', 'path': 'analysis/facts.py analysis/effects.py', 'serves_properties': ['C16', 'C17'],
      'kind_free_text': 'whole-crate call graph (fn items as values and closures are edges, CHA for unresolved trait calls) and transitive effect sets'},
+    {'name': 'E2 event automata', 'path': 'analysis/cfg.py', 'serves_properties': ['C03'],
+     'kind_free_text': 'forward data-flow of (automaton state, known enum variants) over the MIR CFG with per-callee summaries; keeps Ok/Err outcomes apart until the ? has branched'},
 ]
 NOTES = ('Static analysis only: no registered check executes dnssector code or calls a solver. Each ./check re-extracts MIR facts from '
          "$VERIF_REPO (default /repo)'s working tree into a fresh temporary target directory. See DESIGN.md.")
@@ -32,5 +34,15 @@ CHECKS['C17'] = {
              '(rand, time, env, fs, io, sockets, process, thread, RandomState/HashMap, sync, libc, uninitialised memory). rand is called only from ParsedPacket::empty and its value flows only into set_tid. '
              'With no state surviving a call and no ambient input, equal arguments give equal results whatever ran before or runs concurrently.'),
     'note': 'Trusted: the per-crate classification in tables/extern_effects.json (dependency MIR is not re-analysed), rustc MIR/trait resolution. Unclassified leaves fail closed.',
+}
+CHECKS['C03'] = {
+    'engine': 'E2 event automata', 'level': 'other',
+    'technique': 'path-sensitive typestate/pairing automata on the MIR CFG + call-graph effect check',
+    'design_ref': 'DESIGN.md section 4, C03',
+    'text': ('Decides structural necessary conditions, for all paths: (a) in every body that moves a cursor, advances (offset <- Some(offset_next)) and rrs_left decrements are paired on every path '
+             'to every exit and each decrement is dominated by the rrs_left == 0 test; (b) none of the accessors / next* / into_iter_* can reach a store to or a mutable borrow of any ParsedPacket field; '
+             '(d) ResponseIterator::next is next_including_opt followed by a skip that advances only under rr_type() == Type::OPT. '
+             'Does NOT decide that the values returned equal an independent decode for every accepted packet, nor panic-freedom of the trusted readers (run-time invariants of accepted packets).'),
+    'note': 'Structural clauses only; the behavioural equality with an RFC 1035 decode is not claimed. Trusted: rustc MIR, the rule engines.',
 }
 NOT_APPLICABLE = {('C%02d' % i): PENDING for i in range(1, 19) if ('C%02d' % i) not in CHECKS}
